@@ -199,7 +199,7 @@ def check_case(desc, ctx):
             ok, got = _call(ctx, desc, "state.partial_trace", via_state, rho.copy(), keep, n * [2])
         if ok:
             ctx.count("ptrace:calls")
-            if got.shape != ref.shape or not np.allclose(got, ref, atol=1e-8):
+            if got.shape != ref.shape or not np.allclose(got, ref, atol=1e-8, rtol=0):
                 ctx.violation("partial_trace_wrong", desc,
                               {"n": n, "keep": keep, "trace_got": complex(np.trace(got)), "trace_ref": complex(np.trace(ref)),
                                "max_abs_diff": float(np.max(np.abs(got - ref))) if got.shape == ref.shape else "shape"},
@@ -243,7 +243,7 @@ def check_case(desc, ctx):
             ctx.violation("fidelity_out_of_range", desc, det, key="fid_range")
         if abs(f1 - fref) > 5e-6:
             ctx.violation("fidelity_value", desc, det, key="fid_value")
-        same = np.allclose(rho, sigma, atol=1e-12)
+        same = np.allclose(rho, sigma, atol=1e-12, rtol=0)
         if same and abs(f1 - 1) > TOL:
             ctx.violation("fidelity_equal_states_not_1", desc, det, key="fid_equal")
         if (not same) and dense.trace_distance(rho, sigma) > 1e-3 and f1 > 1 - 1e-9:
@@ -253,7 +253,7 @@ def check_case(desc, ctx):
         ok, sq = _call(ctx, desc, "sqrtm_psd", dmf.sqrtm_psd, rho.copy())
         if ok:
             ctx.count("sqrtm:calls")
-            if not np.allclose(sq @ sq, rho, atol=1e-8):
+            if not np.allclose(sq @ sq, rho, atol=1e-8, rtol=0):
                 ctx.violation("sqrtm_wrong", desc, {"max_abs_err": float(np.max(np.abs(sq @ sq - rho)))}, key="sqrtm")
     # ---- trace distance
     tref = dense.trace_distance(rho, sigma)
